@@ -60,6 +60,35 @@ pub fn run(ctx: &mut Ctx, args: &[String]) {
             ctx.out_json("domain", json!({"size": size, "w": crate::hex(&w), "winv": crate::hex(&winv),
                                           "size_inv": crate::hex(&sinv), "g": crate::hex(&g)}));
         }
+        "fft_sparse" => {
+            // fft_sparse <op> <log_n> <p0,p1,..>: a vector of length n whose entries at the listed
+            // positions are symbolic and all others concrete (seed-derived); run under the rayon pool
+            // size given by RAYON_NUM_THREADS (the parallel kernels start at n = 2^12)
+            let op = args[1].as_str();
+            let n = 1usize << p(2);
+            let pos: Vec<usize> = args[3].split(',').filter(|x| !x.is_empty()).map(|x| x.parse().unwrap()).collect();
+            let v: Vec<BlsScalar> = (0..n)
+                .map(|i| {
+                    if pos.contains(&i) {
+                        ctx.var(&format!("x{i}"))
+                    } else {
+                        crate::concrete_from_name(ctx.seed ^ 0xff7, &format!("c{i}"))
+                    }
+                })
+                .collect();
+            let out = match op {
+                "fft" => hk::fft(n, &v),
+                "ifft" => hk::ifft(n, &v),
+                "coset_fft" => hk::coset_fft(n, &v),
+                _ => hk::coset_ifft(n, &v),
+            };
+            ctx.out_json("out", jv(ctx, &out));
+            ctx.out_json("input", Value::Array(v.iter().enumerate().map(|(i, x)| if pos.contains(&i) { Value::Null } else { json!(crate::hex(x)) }).collect()));
+            let (size, w, winv, sinv, g) = hk::domain_params(n);
+            ctx.out_json("domain", json!({"size": size, "w": crate::hex(&w), "winv": crate::hex(&winv),
+                                          "size_inv": crate::hex(&sinv), "g": crate::hex(&g)}));
+            ctx.out_json("threads", json!(std::env::var("RAYON_NUM_THREADS").ok()));
+        }
         "poly" => {
             // poly <op> <la> <lb>
             let op = args[1].as_str();
@@ -264,8 +293,25 @@ pub fn run_kzg(ctx: &mut Ctx, args: &[String]) {
             let k = p(1);
             let kp = args.get(2).map(|s| s.parse().unwrap()).unwrap_or(k);
             #[cfg(feature = "sym")]
-            if !ctx.concrete {
+            {
                 dusk_bls12_381::sym::set_transcript_symbolic(true);
+                if ctx.concrete {
+                    // replay: concrete values, random oracle scripted from the environment
+                    // (keys ch_<label>_<hash>)
+                    let mut script = vec![];
+                    if let Some(env) = ctx.env_override.clone() {
+                        for (k, v) in env.iter() {
+                            if let (Some(rest), Value::String(h)) = (k.strip_prefix("ch_"), v) {
+                                let lab = match rest.rfind('_') {
+                                    Some(i) => &rest[..i],
+                                    None => rest,
+                                };
+                                script.push((lab.to_string(), crate::from_hex(h)));
+                            }
+                        }
+                    }
+                    dusk_bls12_381::sym::set_challenge_script(script);
+                }
             }
             let g = crate::protocol::g1(ctx, "ok_g");
             let h = crate::protocol::g2(ctx, "ok_h");
